@@ -1,12 +1,13 @@
 """C20 — spatio-temporal constraints (table level; tracker level is added with the tracker model)."""
 from wiregen import *
+from geomgen import *
 import itertools
 
 ID = "C20"
 THEOREM_MODULE = "SimVerif.Props.C20"
-NONTRIVIAL_FLAGS = {"rejected", "admitted-under-limit", "at-limit", "larger-gap-entry", "dup-gap", "assert"}
+NONTRIVIAL_FLAGS = {"overlap", "near-disjoint", "rejected", "admitted-under-limit", "at-limit", "larger-gap-entry", "dup-gap", "assert"}
 RULE = ("cases = `constr new`, one or more `constr add k (gap limit)*` calls (gaps 0..8, limits from a grid, duplicates within and across calls, "
-        "occasional non-positive limit = expected assert), then `constr val gap dist` probes for every gap 0..10 and distances at/around every limit; "
+        "occasional non-positive limit = expected assert), `geom inter` pairs of boxes of different sizes (the executor also evaluates dist_in_2r, compared with centre distance / (r1+r2)), then `constr val gap dist` probes for every gap 0..10 and distances at/around every limit; "
         "thorough tier enumerates all tables of <=3 entries over gaps {0,1,3,8} x limits {0.5,1,2}; non-trivial = the model flagged a rejection, an admission under a "
         "binding limit, a probe exactly at the limit, an entry with a strictly larger gap being used, a duplicate gap, or an assert; distinct = distinct request line")
 TRUSTED_BASE = ["Lean 4.33 kernel", "axioms: propext, Quot.sound, Classical.choice (at most)",
@@ -77,6 +78,10 @@ def generate(rng, tier):
                 c.append((g, f32(l)))
             calls.append(c)
         cases.append(case_of(calls, rng, neg=rng.random() < 0.05))
+    # the distance the constraints are applied to: dist_in_2r = centre distance / sum of the two bounding radii
+    for i in range({"quick": 150, "thorough": 3000, "search": 1000}.get(tier, 150)):
+        a, b = pair(rng)
+        cases.append(["geom inter %s %s" % (utok(*a), utok(*b))])
     return cases
 
 
